@@ -304,6 +304,16 @@ Proof.
     apply Z.leb_le. apply indexed_iff. exact Hi.
 Qed.
 
+(* a compiled dictionary has at least one row and one column (the BOS/EOS id 0 exists): the precondition of C20 *)
+Theorem compiled_matrix_nonempty : forall inp d, input_wf inp -> build_with F inp = Ok d -> 1 <= d_nl d /\ 1 <= d_nr d.
+Proof.
+  intros inp d Wf H. destruct (build_valid inp d Wf H) as (V & _ & _ & _ & _ & Ex).
+  apply existsb_exists in Ex as [e [Hin He]]. unfold dict_valid in V. rewrite forallb_forall in V. specialize (V e Hin).
+  apply andb_true_iff in V as [V _]. apply andb_true_iff in V as [V _]. unfold entry_ids_ok in V. rewrite He in V.
+  apply andb_true_iff in V as [V V3]. apply andb_true_iff in V as [V1 V2].
+  apply Z.leb_le in He, V2. apply Z.ltb_lt in V1, V3. lia.
+Qed.
+
 (* consequently the connection lookup analysis performs for any two indexed entries stays inside the matrix *)
 
 Theorem validated_ids_index_safe : forall inp d a b, input_wf inp -> build_with F inp = Ok d ->
